@@ -833,6 +833,18 @@ module Z =
        | Zpos y' -> Zneg (Coq_Pos.mul x' y')
        | Zneg y' -> Zpos (Coq_Pos.mul x' y'))
 
+  (** val pow_pos : z -> positive -> z **)
+
+  let pow_pos z0 =
+    Coq_Pos.iter (mul z0) (Zpos XH)
+
+  (** val pow : z -> z -> z **)
+
+  let pow x = function
+  | Z0 -> Zpos XH
+  | Zpos p -> pow_pos x p
+  | Zneg _ -> Z0
+
   (** val compare : z -> z -> comparison **)
 
   let compare x y =
@@ -1467,10 +1479,17 @@ let optimize_pre_fix n0 =
 let from_big_num u d =
   optimize { up = u; down = d }
 
+(** val wrap_isize : z -> z **)
+
+let wrap_isize d =
+  if Z.ltb d (Z.pow (Zpos (XO XH)) (Zpos (XI (XI (XI (XI (XI XH)))))))
+  then d
+  else Z.sub d (Z.pow (Zpos (XO XH)) (Zpos (XO (XO (XO (XO (XO (XO XH))))))))
+
 (** val nnew : z -> z -> num **)
 
 let nnew u d =
-  optimize { up = (bnew u); down = (bnew d) }
+  optimize { up = (bnew u); down = (bnew (wrap_isize d)) }
 
 (** val nminus : num -> num **)
 
